@@ -4,6 +4,7 @@ Functions which produce intermediate_repr from various different inputs
 import ast
 from ast import Attribute, Expr, FunctionDef, Load, Name, Return, arguments
 from functools import partial
+from itertools import chain, dropwhile, takewhile
 from textwrap import indent
 from typing import Any
 
@@ -291,16 +292,34 @@ def _parse_return(e, intermediate_repr, function_def, emit_default_doc):
     """
     assert isinstance(e, Return)
 
+    # The `:return` entry and the lines its description was wrapped onto (up to the next `:field`)
+    doc_lines = list(
+        dropwhile(
+            lambda line: not line.lstrip().startswith(":return"),
+            get_value(function_def.body[0].value).split("\n"),
+        )
+    )
+    return_doc = " ".join(
+        filter(
+            None,
+            map(
+                str.strip,
+                chain(
+                    (doc_lines[0].partition(",")[2],),
+                    takewhile(
+                        lambda line: not line.lstrip().startswith(":"), doc_lines[1:]
+                    ),
+                ),
+            ),
+        )
+    )
+
     return set_default_doc(
         (
             "return_type",
             {
                 "doc": extract_default(
-                    next(
-                        line.partition(",")[2].lstrip()
-                        for line in get_value(function_def.body[0].value).split("\n")
-                        if line.lstrip().startswith(":return")
-                    ),
+                    return_doc,
                     emit_default_doc=emit_default_doc,
                 )[0],
                 "default": to_code(e.value.elts[1]).rstrip("\n"),
